@@ -207,3 +207,127 @@ pub fn replay_cone(line: &Value, out: &mut Out, stats: &mut crate::sc_nested::Re
     if let Some(ev) = cone_event(rng, depth, dd, lon, lat, r, "generated") { out.emit(ev); }
   }
 }
+
+// ------------------------------------------------------------------------------------------ C16
+/// (a) G direction: an order class of the radius relative to the table actually used by the crate (read through the
+/// cfg-guarded accessor); the expected depth comes from the specification's definition
+pub fn replay_lookup(line: &Value, out: &mut Out, stats: &mut crate::sc_nested::ReplayStats) {
+  let t = |d: i64| cdshealpix::verif_smaller_edge2opedge_dist(d as u8);
+  let expected = line["expected"].as_i64().unwrap();
+  let (eq, above, below) = (line["eq"].as_i64().unwrap(), line["above"].as_i64().unwrap(), line["below"].as_i64().unwrap());
+  let radii: Vec<f64> = if eq >= 0 { vec![t(eq)] }
+    else if above >= 1 { vec![next_up(t(above)), 0.5 * (t(above) + t(above - 1)), next_down(t(above - 1)), t(above) * 1.001, t(above - 1) * 0.999] }
+    else if below == 1 { vec![next_down(t(29)), 0.5 * t(29), 0.0, 1e-300] }
+    else { vec![] };
+  for r in radii {
+    stats.calls += 1;
+    let has = guarded(|| cdshealpix::has_best_starting_depth(r));
+    let got = guarded(|| cdshealpix::best_starting_depth(r));
+    if has != Some(true) || got != Some(expected as u8) {
+      stats.bad += 1;
+      out.emit(json!({"verdict": "mismatch", "ev": "best_starting_depth", "r": format!("{:e}", r), "expected": expected, "got": got, "has": has, "class": line["cls"]}));
+    }
+  }
+  // above the depth-0 limit: refused, as has_best_starting_depth announces (checked once, on the first class)
+  if line["cls"].as_i64().unwrap() == -1 {
+    for r in [t(0), next_up(t(0)), 1.0, 3.2].iter() {
+      stats.calls += 1;
+      let has = guarded(|| cdshealpix::has_best_starting_depth(*r));
+      let got = guarded(|| cdshealpix::best_starting_depth(*r));
+      if has != Some(false) || got.is_some() {
+        stats.bad += 1;
+        out.emit(json!({"verdict": "mismatch", "ev": "best_starting_depth_refusal", "r": format!("{:e}", r), "got": got, "has": has}));
+      }
+    }
+    // the table must be strictly decreasing (the specification's only assumption on it)
+    for d in 1..30 { if !(t(d) < t(d - 1)) { stats.bad += 1; out.emit(json!({"verdict": "mismatch", "ev": "table_not_decreasing", "d": d})); } }
+  }
+}
+
+/// true largest centre-to-vertex distance of a cell (exact vertex coordinates through the bridge)
+fn true_c2v(depth: u8, c: Cell) -> f64 {
+  let n = (1u64 << depth) as f64;
+  let (cl, cb) = ref_unproj_local(n, c.b, c.i as f64 + 0.5, c.j as f64 + 0.5);
+  let mut m: f64 = 0.0;
+  for (da, dc) in [(0.0, 0.0), (1.0, 0.0), (0.0, 1.0), (1.0, 1.0)].iter() {
+    let (vl, vb) = ref_unproj_local(n, c.b, c.i as f64 + da, c.j as f64 + dc);
+    m = m.max(ang_dist(cl, cb, vl, vb));
+  }
+  m
+}
+/// deficit of a bound in units of 1e-6 of the true distance (<= 0: the bound holds)
+fn deficit_ppm(truth: f64, bound: f64) -> i64 { (((truth - bound) / truth) * 1e6).round().max(-2e9).min(2e9) as i64 }
+
+pub fn record_c16(rng: &mut Rng, count: u64, out: &mut Out) {
+  let thr = thresholds().clone();
+  while out.n < count {
+    let depth = if rng.below(4) == 0 { 29 - rng.below(4) as u8 } else { rng.below(30) as u8 };
+    let n = 1u32 << depth;
+    match rng.below(3) {
+      0 => {
+        // (c1) largest_center_to_vertex_distance at the centre of a cell bounds the true distance of that cell
+        let c = if rng.bool() { crate::sc_nested::special_cells(rng, depth) } else { Cell { b: rng.below(12) as u8, i: rng.below(n as u64) as u32, j: rng.below(n as u64) as u32 } };
+        // any position of the cell: centre or random offset
+        let (fa, fc) = if rng.bool() { (0.5, 0.5) } else { (rng.range(0.01, 0.99), rng.range(0.01, 0.99)) };
+        let (lon, lat) = ref_unproj_local(n as f64, c.b, c.i as f64 + fa, c.j as f64 + fc);
+        let b = guarded(|| cdshealpix::largest_center_to_vertex_distance(depth, lon, lat));
+        // attribution fields: the cell straddles the transition latitude / lies in a polar cap
+        let tl = 0.7297276562269663;
+        let lats: Vec<f64> = [(0.0, 0.0), (1.0, 0.0), (0.0, 1.0), (1.0, 1.0)].iter().map(|(da, dc)| ref_unproj_local(n as f64, c.b, c.i as f64 + da, c.j as f64 + dc).1.abs()).collect();
+        let (lmin, lmax) = (lats.iter().cloned().fold(f64::MAX, f64::min), lats.iter().cloned().fold(0.0, f64::max));
+        let straddle = (lmin < tl + 1e-12 && lmax > tl - 1e-12) as u8;
+        let capcell = (lmin >= tl - 1e-12) as u8;
+        out.emit(json!({"ev": "c2v", "d": depth, "c": c.json(), "p": b.is_none() as u8, "deficit": b.map_or(0, |b| deficit_ppm(true_c2v(depth, c), b)),
+                        "straddle": straddle, "capcell": capcell,
+                        "polerow": if c.b < 4 { (2 * (n - 1) - (c.i + c.j)) as i64 } else if c.b >= 8 { (c.i + c.j) as i64 } else { -1 }, "in": pos_str(lon, lat)}));
+      }
+      1 => {
+        // (c2) the _with_radius variants bound it for every cell whose centre lies within the radius of the position
+        let (lon, lat, class) = gen_position(rng);
+        let lon = lon.rem_euclid(TWO_PI);
+        let r = match rng.below(3) { 0 => cell_size(depth) * rng.range(0.2, 6.0), 1 => rng.range(0.0, 0.5), _ => 10f64.powf(rng.range(-6.0, 0.3)) }.min(3.0);
+        let b1 = guarded(|| cdshealpix::largest_center_to_vertex_distance_with_radius(depth, lon, lat, r));
+        let from = rng.below(depth as u64 + 1) as u8;
+        let arr = guarded(|| cdshealpix::largest_center_to_vertex_distances_with_radius(from, depth + 1, lon, lat, r));
+        // cells whose centre is within r: sampled (the position's own cell, and cells of points in the disc)
+        let mut worst1 = -2_000_000_000i64;
+        let mut worst_arr = -2_000_000_000i64;
+        let mut ncand = 0;
+        for k in 0..40 {
+          let (pl, pb) = if k == 0 { (lon, lat) } else { offset_point(lon, lat, r * rng.f64().sqrt(), rng.range(0.0, TWO_PI)) };
+          for dd in from..=depth {
+            let nn = 1u32 << dd;
+            let f = face_of(nn, pl, pb);
+            let c = Cell { b: f.b, i: (f.a2 / 2).min(nn - 1), j: (f.c2 / 2).min(nn - 1) };
+            let (cl, cb) = ref_unproj_local(nn as f64, c.b, c.i as f64 + 0.5, c.j as f64 + 0.5);
+            if ang_dist(cl, cb, lon, lat) > r * (1.0 - 1e-9) { continue; }
+            ncand += 1;
+            let truth = true_c2v(dd, c);
+            if dd == depth { if let Some(b) = b1 { worst1 = worst1.max(deficit_ppm(truth, b)); } }
+            if let Some(a) = &arr { if ((dd - from) as usize) < a.len() { worst_arr = worst_arr.max(deficit_ppm(truth, a[(dd - from) as usize])); } }
+          }
+        }
+        let reg = if lat.abs() + r >= 0.7297276562269663 { "npc" } else { "eqr" };
+        out.emit(json!({"ev": "c2v_radius", "d": depth, "from": from, "reg": reg, "p": (b1.is_none() || arr.is_none()) as u8, "ncand": ncand, "deficit": worst1, "deficit_arr": worst_arr,
+                        "len_ok": arr.as_ref().map_or(0, |a| (a.len() == (depth + 1 - from) as usize) as u8), "cls": class, "in": format!("{} r={:e}", pos_str(lon, lat), r)}));
+      }
+      _ => {
+        // (b) at depth = best_starting_depth(r) a cone of radius r fits in the cell of its centre plus its neighbours
+        let t = *rng.pick(&thr);
+        let r = match rng.below(4) { 0 => t * (1.0 - 1e-9), 1 => t * rng.range(0.5, 1.0), 2 => t * 0.97, _ => 10f64.powf(rng.range(-8.5, -0.1)) };
+        if !cdshealpix::has_best_starting_depth(r) { continue; }
+        let ds = cdshealpix::best_starting_depth(r);
+        let (lon, lat, class) = if rng.below(3) == 0 { crate::sc_nested::gen_border_position(rng) } else { gen_position(rng) };
+        let lon = lon.rem_euclid(TWO_PI);
+        let h = guarded(|| nested::hash(ds, lon, lat));
+        let wit = cone_witnesses(rng, ds, lon, lat, r, 60);
+        let k = (lon / HALF_PI).round();
+        let cseam = ((lon - k * HALF_PI).abs() < 1e-12 && lat.abs() > 0.7297276562269663) as u8;
+        let nearthr = thr.iter().any(|t| r < *t && r >= 0.97 * *t) as u8;
+        let wj: Vec<Value> = wit.iter().map(|c| cell_of_hash(ds, hash_of_path(c.b as u64, &c.p)).json()).collect();
+        out.emit(json!({"ev": "fits9", "d": ds, "p": h.is_none() as u8, "c": h.map_or(json!([]), |h| crate::sc_nested::cell_json(ds, h)), "wit": wj,
+                        "cseam": cseam, "nearthr": nearthr, "cls": class, "in": format!("{} r={:e}", pos_str(lon, lat), r)}));
+      }
+    }
+  }
+}
